@@ -73,8 +73,12 @@ func runC05(c *Ctx) {
 			c.CountSite()
 			desc := m.Op
 			if m.Op == "maps.Copy" {
-				// whole-map copy: keys and value lists preserved by construction
-				c.OK("C05.1", FuncName(fn), "maps.Copy", m.Instr.Pos(), "whole header map copied with unchanged keys and value lists")
+				// whole-map copy: keys and value lists preserved by construction - but a copy
+				// REPLACES the value list of a key the destination already has; that is fine
+				// only for a destination created in this function (defect D38)
+				c.Check(isFresh(m.Map), "C05.1", FuncName(fn), "maps.Copy", m.Instr.Pos(),
+					"whole header map copied with unchanged keys and value lists into a map created here",
+					"maps.Copy into a header map that may already hold entries (a parameter / the live response header): the value list of any key present on both sides is replaced - a response header with the same name as a trailer loses its values")
 				continue
 			}
 			if m.Key == nil {
@@ -125,6 +129,20 @@ func runC05(c *Ctx) {
 			if !okV && m.Op == "Add" {
 				if rv, ok := nestedElemOf(m.Val); ok && rv == rk {
 					okV = true
+				}
+			}
+			// dst[key] = append(dst[key], vals...): the ranged value list appended to what the
+			// destination already holds under the same key (nothing lost on either side)
+			if !okV && m.Op == "index" {
+				if ap, ok := m.Val.(*ssa.Call); ok {
+					if b, isB := ap.Call.Value.(*ssa.Builtin); isB && b.Name() == "append" && len(ap.Call.Args) == 2 {
+						if rv, ok := rangeValOf(ap.Call.Args[1]); ok && rv == rk {
+							// first operand: the destination's own entry under the same key
+							if lk, ok := strip(ap.Call.Args[0]).(*ssa.Lookup); ok && lk.X == m.Map && lk.Index == m.Key {
+								okV = true
+							}
+						}
+					}
 				}
 			}
 			c.Check(okV, "C05.1", FuncName(fn), desc+":relocate", m.Instr.Pos(),
@@ -318,6 +336,52 @@ func runC05more(c *Ctx) {
 	}
 
 	// ---- C05.6 an end created by header extraction carries the trailers extracted there
+	// ---------------------------------------------------------------- C05.7
+	// (defect D37) Extracting trailers from a header map consumes them (the keys are deleted).  A
+	// second extraction from the same map on the same path yields nothing - and if its result is
+	// stored over the first one, the trailers are lost.
+	c.Rule("C05.7", "trailers are extracted from a header map at most once per path", 2)
+	{
+		ext := p.MustFunc("httpExtractTrailers")
+		nFn := 0
+		for _, fn := range p.Funcs {
+			if !p.inScope(fn) {
+				continue
+			}
+			var calls []ssa.CallInstruction
+			for _, call := range Calls(fn) {
+				if call.Common().StaticCallee() == ext {
+					calls = append(calls, call)
+				}
+			}
+			if len(calls) == 0 {
+				continue
+			}
+			nFn++
+			twice := ""
+			for _, a := range calls {
+				for _, b := range calls {
+					if a == b {
+						continue
+					}
+					ha, hb := a.Common().Args[0], b.Common().Args[0]
+					if ha != hb && PathOf(ha) != PathOf(hb) {
+						continue
+					}
+					if reach, _ := (PathQuery{Target: func(in ssa.Instruction) bool { return in == ssa.Instruction(b) }}).Search(fn, a); reach {
+						twice = p.Pos(a.Pos()) + " then " + p.Pos(b.Pos())
+					}
+				}
+			}
+			c.Check(twice == "", "C05.7", FuncName(fn), "extract-once", fn.Pos(),
+				"no path extracts the trailers of the same header map twice",
+				"a path extracts the trailers of the same header map twice ("+twice+"): the first extraction removed them, the second finds nothing, and what it returns replaces what was captured - the handler's trailers are dropped")
+		}
+		if nFn == 0 {
+			c.Bad("C05.7", FuncName(ext), "extract-once", ext.Pos(), "the trailer extractor is never called: shape changed")
+		}
+	}
+
 	c.Rule("C05.6", "a response end created while extracting headers carries the trailers extracted there", 2)
 	sph := p.Iface("serverProtocolHandler")
 	endF := p.MustField("responseMeta", "end")
@@ -383,6 +447,40 @@ func runC05more(c *Ctx) {
 					return false
 				}
 				okT, path := MustPassToExit(fn, al, setsTrailers, IsReturn, nil)
+				if !okT {
+					// path-sensitive second look: the trailers may be stored under a later
+					// 'if meta.end != nil' that is always true on paths that created the end
+					cps, okE := EnumPaths(al.Block(), nil, IsReturn, 0)
+					if okE {
+						okT = true
+						for _, cp := range cps {
+							sets := false
+							for _, b := range cp.Blocks {
+								for _, x := range b.Instrs {
+									if setsTrailers(x) {
+										sets = true
+									}
+								}
+							}
+							if sets {
+								continue
+							}
+							infeasible := false
+							for cond, truth := range cp.Truth {
+								b, isB := cond.(*ssa.BinOp)
+								if !isB || !IsNilConst(b.Y) || LoadedField(b.X) != endF {
+									continue
+								}
+								if b.Op == token.NEQ && !truth || b.Op == token.EQL && truth {
+									infeasible = true // 'end is nil' after it was just created
+								}
+							}
+							if !infeasible {
+								okT = false
+							}
+						}
+					}
+				}
 				c.Check(okT, "C05.6", FuncName(fn), "end-carries-extracted-trailers", al.Pos(),
 					"on every path from creating the end to the return the extracted trailers are stored into it",
 					"header extraction creates a response end but a path returns without putting the extracted trailers into it ("+witnessString(p, path)+"): trailers of a failing backend response are lost because pending trailers are ignored once an end exists")
